@@ -464,8 +464,12 @@ def _init_htpasswd_context():
     schemes.extend(registry.get_supported_os_crypt_schemes())
 
     # hack to remove dups and sort into preferred order
+    # NOTE: "plaintext" identifies any string, so it has to stay last --
+    #       otherwise it shadows the os_crypt schemes appended above.
     preferred = schemes[:3] + ["apr_md5_crypt"] + schemes
-    schemes = sorted(set(schemes), key=preferred.index)
+    schemes = sorted(
+        set(schemes), key=lambda name: (name == "plaintext", preferred.index(name))
+    )
 
     # create context object
     return CryptContext(
